@@ -311,3 +311,22 @@ Definition dbn_infer (N : nat) (cards : list nat) (es : list edge) (cs : list cp
       if smooth then backward_inference N cards F0 F1 I0 I1 qs ev
       else forward_inference N cards F0 F1 I0 I1 qs ev
     else Err 3).
+
+(* ------------------------------------------------------------------ sessions (one engine, several questions)
+   A DBNInference object keeps, between calls, only what __init__ built from the template: the start and
+   1.5-slice junction trees, the interface node lists and the three cliques.  forward_inference and
+   backward_inference create fresh BeliefPropagation engines (deep copies of those trees) on every call and
+   never assign to self.  So the engine is a state machine whose state is not changed by a question, and the
+   model answer for the k-th question of a session is the single-question answer; harness/c17.py's session
+   stream checks exactly that against pgmpy (any memoisation keyed on less than the full question shows up there). *)
+Record engine := { e_N : nat; e_cards : list nat; e_edges : list edge; e_cpds : list cpd }.
+Record question := { q_vars : queries; q_ev : evidence; q_smooth : bool }.
+Definition answer (e : engine) (q : question) : res answers :=
+  dbn_infer (e_N e) (e_cards e) (e_edges e) (e_cpds e) (q_vars q) (q_ev q) (q_smooth q).
+(* one call: new state, answer *)
+Definition engine_ask (e : engine) (q : question) : engine * res answers := (e, answer e q).
+Fixpoint session (e : engine) (qs : list question) : list (res answers) :=
+  match qs with
+  | [] => []
+  | q :: r => let (e', a) := engine_ask e q in a :: session e' r
+  end.
